@@ -131,6 +131,7 @@ def gen_session(rng, tier, profile="mixed"):
     if profile == "sm":
         return gen_sm_session(rng)
     s = Scenario(rng)
+    policy = profile == "policy"
     ops = s.ops
     flags = 0
     r = rng.random()
@@ -148,6 +149,8 @@ def gen_session(rng, tier, profile="mixed"):
         flags = rng.randrange(256) & ~F_COMPRESS
     if rng.random() < 0.25:
         flags |= F_DISABLE_SM
+    if policy:
+        flags = rng.randrange(256)          # every flag word, accepted or refused by the API
     flags &= ~F_COMPRESS
     ctype = rng.choice(["c"] * 8 + ["k", "r"])
     jid = rng.choice(["user@example.org/res", "user@example.org", "example.org", "u@example.org/",
